@@ -58,6 +58,8 @@ def gen(prop):
         meta = {"property": prop, "name": name, "expect": expect, "what": what}
         if m.get("expect_silent"):
             meta["expect_silent"] = True
+        if m.get("expect_proven"):
+            meta["expect_proven"] = m["expect_proven"]
         open(os.path.join(outdir, name + ".json"), "w").write(json.dumps(meta, indent=1) + "\n")
         n += 1
     print(f"{prop}: {n} mutants")
